@@ -28,7 +28,7 @@ def jobs(tier):
     for yg in ygroups:
         env = {"VQ_WIDE": "0"} if yg is None else {"VQ_WIDE": "1", "VQ_YEARS": yg}
         out.append(Job("C05.NOTATIONS-API" + ("" if yg is None else "[%s]" % yg), "vq.harness.h_api2", "ob_date", timeout=7200, path_timeout=600, env=env,
-                       bounds=("3 days x 3 months x 2 years (2000/2029) with clock 09:30, plus 12.03.2000 with 6 more clock times; reference times: two fixed ones and one 10 hours before the written instant; with ' hh:mm' and ' at hh:mm'" if yg is None else "12 days x 12 months x years {} x 24 hours x 60 minutes restricted to one clock per date plus 12.03 with all clocks".format(yg)) +
+                       bounds=("3 days x 3 months x 2 years (2000/2029) with clock 09:30, plus 12.03.2000 with 6 more clock times; reference times: two fixed ones and one 10 hours before the written instant; with ' hh:mm' and ' at hh:mm'" if yg is None else "12 days x 12 months x years {} with clock 09:30, plus 12.03 of the first year with 24 hours x 4 minutes".format(yg)) +
                               "; every notation (numeric ./-//, dd.mm.yy, day + month name + year EN/DE) x 3 reference times resolves to that date (and time); stand-alone years readable as hh:mm are excluded for month-name notations",
                        functions=[fn_id(CC.ctparse)], stubs=["parser untraced; pool indices symbolic (solver covers every combination)"], site="ctparse"))
     return out
